@@ -238,6 +238,9 @@ pub fn gen_text(r: &mut Rng) -> String {
         6 => format!("'{}'", gen_str(r).replace('\'', "''")),
         7 => { let (a, _) = gen_layout_pair(r); let n = a.chars().count(); let k = r.usize(n + 1); a.chars().take(k).collect() }   // truncation
         8 => { let (a, _) = gen_layout_pair(r); let mut cs: Vec<char> = a.chars().collect(); if !cs.is_empty() { let k = r.usize(cs.len()); cs[k] = *r.pick(&['(', ')', '\'', '{', '}', '-', ',', '[', ']', '.', '#', ' ']); } cs.into_iter().collect() }
+        // number soup: runs of numeric characters of every script (fullwidth, Arabic-Indic, Devanagari, superscripts, Roman numerals), 1-40 of them
+        9 if r.chance(1, 2) => { let big = r.chance(1, 3); let n = 1 + r.below(if big { 40 } else { 8 }); let pool: &[char] = match r.below(3) { 0 => &['1', '１', '٣', '५', '0', '.'], 1 => &['１', '２', '３', '４', '５', '６'], _ => &['7', '8', '.', '²', 'Ⅷ', '〇', '٣', '9', '๓'] };
+            let t: String = (0..n).map(|_| *r.pick(pool)).collect(); if r.chance(1, 3) { format!("a + {} * 2", t) } else { t } }
         _ => { let n = r.below(12); (0..n).map(|_| char::from_u32(match r.below(4) { 0 => r.below(128) as u32, 1 => 0xA0 + r.below(0x260) as u32, 2 => 0x4E00 + r.below(100) as u32, _ => 0x1F600 + r.below(50) as u32 }).unwrap_or('x')).collect() }
     }
 }
